@@ -32,6 +32,27 @@ def main():
         out.append("S:" + text)
         return text
     SM.SerialMonitor.write = write
+    # LCD: after every public method call the host buffer is reported like the firmware mock reports its cells
+    try:
+        import Reduino.Displays  # noqa: F401
+        LCDM = sys.modules["Reduino.Displays.LCD"]
+        LCD = LCDM.LCD
+
+        def wrap(name):
+            orig = getattr(LCD, name)
+
+            def inner(self, *a, **k):
+                r = orig(self, *a, **k)
+                for i, row in enumerate(self.buffer):
+                    out.append("L:%d:%s" % (i, row))
+                return r
+            inner.__name__ = name
+            setattr(LCD, name, inner)
+        for name in ("clear", "line", "write", "message", "progress", "animate", "tick"):
+            if hasattr(LCD, name):
+                wrap(name)
+    except Exception:
+        pass
     state = {"k": 0}
     passes = job["passes"]
 
